@@ -82,16 +82,18 @@ ASSUME Base \cap Open = {}
 \* ---- LexSet "exprA" / "exprB": every sequence of up to MaxLex expression tokens between "{{" and "}}", and the same
 \* sequence cut off by the end of the input (a prefix of a template: must be rejected). Tokens are written with one
 \* space between them, so each lexes on its own.
-Tk(t, s) == [t |-> t, s |-> s]
+Tk(t, s) == [ts |-> <<t>>, s |-> s]
+Tk2(ts, s) == [ts |-> ts, s |-> s]          \* a text that lexes to several tokens ("&&": two illegal characters)
 ExprB == {Tk("IDENT", "x"), Tk("INT", "1"), Tk("ADD", "+"), Tk("SUB", "-"), Tk("QUESTION", "?"), Tk("COLON", ":"), Tk("DOT", "."), Tk("LPAREN", "("),
-          Tk("RPAREN", ")"), Tk("LBRACKET", "["), Tk("RBRACKET", "]"), Tk("INC", "++"), Tk("COMMA", ",")}
+          Tk("RPAREN", ")"), Tk("LBRACKET", "["), Tk("RBRACKET", "]"), Tk("INC", "++"), Tk("COMMA", ","), Tk2(<<"ILLEGAL", "ILLEGAL">>, "&&")}
 ExprA == ExprB \cup {Tk("STR", "\"s\""), Tk("MUL", "*"), Tk("EQ", "=="), Tk("LTHAN", "<"), Tk("NOT", "!"), Tk("LBRACE", "{"), Tk("RBRACE", "}"),
-                     Tk("SEMI", ";"), Tk("ASSIGN", "="), Tk("NIL", "nil"), Tk("FLOAT", "1.5")}
+                     Tk("SEMI", ";"), Tk("ASSIGN", "="), Tk("NIL", "nil"), Tk("FLOAT", "1.5"), Tk2(<<"ILLEGAL", "ILLEGAL">>, "||"), Tk("ILLEGAL", "#")}
 PadTk == Tk("$pad", "")
 TkSeqs(A, n) == {SelectSeq(q, LAMBDA e : e # PadTk) : q \in [1..n -> A \cup {PadTk}]}
 RECURSIVE TkSrc(_)
 TkSrc(q) == IF q = <<>> THEN "" ELSE " " \o q[1].s \o TkSrc(Tail(q))
-TkTypes(q) == [k \in 1..Len(q) |-> q[k].t]
+RECURSIVE TkTypes(_)
+TkTypes(q) == IF q = <<>> THEN <<>> ELSE q[1].ts \o TkTypes(Tail(q))
 \* the lexer takes "}}" for the end of the code only when every "{" before it has been closed: otherwise it is two "}"
 \* tokens and the input ends in code mode
 Balanced(q) == Count(TkTypes(q), {"LBRACE"}) = Count(TkTypes(q), {"RBRACE"})
